@@ -172,3 +172,76 @@ def generic_walker_trace(ast, val, leaf=lambda stmt: stmt.id):
     if frames or loops or len(active) != 1:
         raise WalkError("unbalanced emit_* callbacks")
     return out
+
+
+# ---------------------------------------------------------------- value mode
+
+class ValueWalker:
+    """Runs a dag_ast tree top to bottom on an exact environment, the way the structured back
+    ends do: guards and loops come from the nodes; a wrapped statement is performed
+    unconditionally (its own `condition` attribute is ignored, as emit_inst_* ignore it) unless
+    honour_statement_conditions is set."""
+
+    def __init__(self, env, honour_statement_conditions=False):
+        from vlib.sched import StatementExecutor
+        self.ex = StatementExecutor(env)
+        self.env = env
+        self.honour = honour_statement_conditions
+        self.executed = []
+
+    def cond(self, c):
+        from vlib import tree as T
+        if c is True or c is False:
+            return c
+        return bool(self.ex.ev(T.from_pymbolic(c)))
+
+    def run(self, node):
+        """May raise sched.StepExit, tree.UndefinedRead, refexec.Inexact/RefError."""
+        from fractions import Fraction
+        from vlib import tree as T
+        k = _kind(node)
+        if k == "StatementWrapper":
+            s = node.statement
+            if self.honour and not self.ex.guard(s):
+                return
+            self.executed.append(s.id)
+            self.ex.perform(s)
+        elif k == "IfThen":
+            if self.cond(node.condition):
+                self.run(node.then)
+        elif k == "IfThenElse":
+            if self.cond(node.condition):
+                self.run(node.then)
+            else:
+                self.run(node.else_)
+        elif k == "ForLoop":
+            lo = self.ex.ev(T.from_pymbolic(node.lbound))
+            hi = self.ex.ev(T.from_pymbolic(node.ubound))
+            for i in range(int(lo), int(hi)):
+                self.env[node.loop_var_name] = Fraction(i)
+                self.run(node.body)
+        elif k == "Block":
+            for c in node.children:
+                self.run(c)
+        elif k == "NullASTNode":
+            raise WalkError("NullASTNode in a tree handed to a back end")
+        else:
+            raise WalkError("unknown node type %s" % k)
+
+
+def statements_of(node, acc=None):
+    acc = [] if acc is None else acc
+    k = _kind(node)
+    if k == "StatementWrapper":
+        acc.append(node.statement)
+    elif k == "IfThen":
+        statements_of(node.then, acc)
+    elif k == "IfThenElse":
+        statements_of(node.then, acc)
+        statements_of(node.else_, acc)
+    elif k == "ForLoop":
+        statements_of(node.body, acc)
+    elif k == "Block":
+        for c in node.children:
+            statements_of(c, acc)
+    return acc
